@@ -164,7 +164,7 @@ func (e *kvElection) handleWatchEvent(entry Entry) {
 					zap.Uint64("revision", entry.Revision()),
 				)...,
 			)
-			e.becomeFollower()
+			e.stepDown("leadership_lost_via_watcher")
 		}
 		return
 	}
